@@ -1,7 +1,7 @@
 """C01 / C04 / C16 single-call behaviours: TLC model-checks spec/SnoopyCall.tla and generates every
 (config file, call inputs, real-exec result) behaviour with the expectation computed by the contract operators;
 each is replayed through the production wrapper (harness/xdrv + librec) and compared."""
-import json, random
+import json, random, subprocess
 from vlib import common as c
 from checks import callflow as cf
 
@@ -75,6 +75,62 @@ def run_prop(prop, tier, seed):
             f2 = {k: v for k, v in f.items() if k != "_expect"}
             rep.violation(sig + ":" + (f2["out"] if f2["state"] == "ok" else f2["state"]), what,
                           dict(file=f2, ini=repr(cf.ini_for(f2, o["ctx"]) if o and "ctx" in o else None), call=call, result=result, expected_records=h["expect"]))
+    if prop == "C01":
+        # histories inside one process: the k-th call must reach the libc function of ITS kind with ITS vectors, whatever was called before
+        # (execv after execve and the reverse; all 3-call histories over SnoopyCallMC!CallsSmall x FilesTwo)
+        gh = c.run_tlc("SnoopyCallMC.tla", "SnoopyCallGenC01H.cfg", heap="16g")
+        rep.tlc(gh)
+        hb = [json.loads(x) for x in gh.printed]
+        rnd.shuffle(hb)
+        mixed = [h for h in hb if len({st["call"]["kind"] for st in h}) > 1]
+        same = [h for h in hb if len({st["call"]["kind"] for st in h}) == 1]
+        hb = mixed + same if tier == "thorough" else mixed[:300] + same[:60]
+        hitems, hexp = [], {}
+        for i, h in enumerate(hb):
+            hitems.append(("h%d" % i, [(st["file"], st["call"], st["result"]) for st in h]))
+            hexp["h%d" % i] = [st["expect"] for st in h]
+        hobs = cf.run_hist(b, hitems, b["root"] + "/hist")
+        for label, steps in hitems:
+            for k, bucket, sig, what in cf.evaluate_hist(label, steps, hexp[label], hobs.get(label)):
+                if bucket != "C01":
+                    continue
+                o2 = cf.run_hist(b, [(label, steps)], b["root"] + "/hconfirm", workers=1)
+                if not any(r2[2] == sig and r2[0] == k and r2[1] == "C01" for r2 in cf.evaluate_hist(label, steps, hexp[label], o2.get(label))):
+                    rep.assumptions.append("non-repeatable observation ignored: %s" % what[:120])
+                    continue
+                kinds = "-then-".join(st[1]["kind"] for st in steps[:k + 1][-2:])
+                rep.violation("history:%s:%s" % (sig, kinds), what, dict(history=steps, failing_step=k))
+            nontriv.add(json.dumps(steps, sort_keys=True))
+        rep.cov["call_histories_replayed"] = len(hitems)
+    if prop == "C04" and subprocess.run(["unshare", "-p", "-f", "--mount-proc", "true"], capture_output=True).returncode == 0:
+        # the syslog header carries the caller's pid: every facility x level with pids of 1..7 digits (clone3 set_tid in a private pid namespace)
+        gp = c.run_tlc("SnoopyCallMC.tla", "SnoopyCallGenPid.cfg")
+        rep.tlc(gp)
+        pb = [json.loads(x)[0] for x in gp.printed]
+        rnd.shuffle(pb)
+        if tier == "quick":
+            pb = [h for h in pb if h["call"]["pid"] in ("p1000000", "p4194303")][:200] + [h for h in pb if h["call"]["pid"] not in ("p1000000", "p4194303")][:200]
+        pitems = []
+        for i, h in enumerate(pb):
+            f = dict(h["file"]); f["_expect"] = h["expect"]
+            pitems.append(("q%d" % i, f, h["call"], h["result"]))
+        pobs, _ = cf.run_batches(b, pitems, b["root"] + "/pids", pidns=True)
+        npid = 0
+        for (label, f, call, result), h in zip(pitems, pb):
+            o = pobs.get(label)
+            want = int(call["pid"][1:])
+            got = (o or {}).get("at", [{}])[0].get("pid") if o and o.get("at") else None
+            if got != want:
+                if len(rep.assumptions) < 30:
+                    rep.assumptions.append("pid %d could not be arranged for %s (got %r): behaviour skipped" % (want, label, got))
+                continue
+            npid += 1
+            nontriv.add(behaviour_key(h))
+            for sig, what in cf.evaluate(label, f, call, result, o)[prop]:
+                rep.violation("%s:devlog:pid%d-digits" % (sig, len(str(want))), "caller pid %d, facility %s, level %s: %s" % (want, f["fac"], f["lvl"], what),
+                              dict(file={k: v for k, v in f.items() if k != "_expect"}, call=call, result=result, expected_records=h["expect"]))
+        rep.cov["pid_header_behaviours"] = npid
+        items = items + pitems[:npid]
     if prop == "C16":
         # runs of N consecutive identical calls in one process, for every config file state: nothing may accumulate
         N = 40 if tier == "quick" else 200
